@@ -49,4 +49,8 @@ let run (toks : string list) : string =
     let inp = unhex stream in
     let (out, st) = Framing.decrypt_stream Framing.cc_open (nat_of_int (L.length inp + 1)) s.Framing.dec_key N0 inp in
     "out=" ^ hx out ^ " st=" ^ (match st with Framing.RClean -> "clean" | Framing.RError _ -> "err")
+  | "decs" :: shared :: role :: segs ->
+    let s = session role (unhex shared) in
+    let (out, st) = Framing.decrypt_segments Framing.cc_open s.Framing.dec_key N0 (L.map unhex segs) in
+    "out=" ^ hx out ^ " st=" ^ (match st with Framing.RClean -> "clean" | Framing.RError _ -> "err")
   | _ -> "badcase"
